@@ -25,7 +25,12 @@ from builders import mailgen
 GEN = ["Router", "Mail"]
 RULE = ("messages = stdlib-generated MIME trees (11 shapes: plain/html/alternative/mixed/related nestings, single-part "
         "attachment) x 9 body charsets x 4 transfer encodings x RFC 2047 headers in 8 charsets (Header class, hand-folded "
-        "encoded words) x 0..3 generated documents; mboxes of 0..5 such messages, LF/CRLF, mboxrd-quoted From_ lines, "
+        "encoded words B/Q with '_' and =20, literal values on one line / folded by hand / folded by the stdlib) x 0..3 "
+        "generated documents; every text draws letters part-uniformly from the WHOLE repertoire of its charset (single-byte: "
+        "the four rows of the high half, so iso-8859-1 has its C1 controls; multi-byte: every Unicode row the codec carries); "
+        "40% of the subjects and 20% of the display names have interior runs of blanks, tabs and Unicode spaces (U+00A0, "
+        "U+3000, U+2003, U+0085 ...) literally, in quoted-strings and inside encoded words; single-byte codecs: all 256 byte "
+        "values through decode_header_value and get_body_content against the codec table; mboxes of 0..5 such messages, LF/CRLF, mboxrd-quoted From_ lines, "
         "0..2 blank lines between messages; malformed stream = line soups over separator fragments, mutated MIME "
         "(attached messages, upper-case dispositions, name= only, empty payloads, unknown charsets, lost boundaries). "
         "distinct = distinct input bytes / trees / routing tuples; non-trivial = has a separator line, an attachment or "
@@ -37,8 +42,13 @@ ASSUMPTIONS = [
     "re: MBOX_FROM_PATTERN is modelled by the hand-written matcher isSepLine, valid for exactly the pattern/flags the "
     "generator reads from the source (theorem gen_pattern) and tied to re by the split/sep correspondence",
     "an mbox stores From_-quoted messages; ground truth for mbox bodies is the stored (quoted) text, as for every mbox reader",
-    "dates are compared as instants (the two extractors print different but equal ISO offsets); body_plain/subject are "
-    "compared after str.strip() (EmailContent.__post_init__ strips them by design), body_html after strip()",
+    "dates are compared as instants (the two extractors print different but equal ISO offsets). Subject, display names "
+    "and bodies are compared code point by code point with what the writer put in; the only transformation granted is RFC "
+    "5322 header unfolding (and RFC 2047 6.2: white space between two encoded words). EmailContent.__post_init__ strips the "
+    "ENDS of subject/body_plain by design, therefore generated subjects/bodies/names carry no white space at their two ends "
+    "(interior white space is arbitrary); body_html is compared after strip() of its two ends",
+    "a display name with interior white space runs is written as a quoted-string or inside encoded words (in an unquoted "
+    "phrase the white space is only a separator of words, RFC 5322 3.2.5)",
     "'supported attachment' = attachment whose MIME type is in MIME_TYPE_MAPPING (the flag the library stores)",
 ]
 TRUSTED = ["model of re / bytes.rstrip / list slicing in S2T/Model/Mail.lean (validated by correspondence)",
@@ -47,6 +57,7 @@ TRUSTED = ["model of re / bytes.rstrip / list slicing in S2T/Model/Mail.lean (va
 KNOWN_FOLDED = "eml.folded-display-name"
 KNOWN_LEAK = "eml.attached-message-body-leak"
 KNOWN_TRAILING = "mbox.single-part-trailing-newlines"
+KNOWN_NFC = "eml.nfc-normalised-text"
 
 
 def _lib():
@@ -145,6 +156,15 @@ def _check_supported_attachments(e, t):
     return ""
 
 
+def _nfc(x):
+    import unicodedata
+    if isinstance(x, str):
+        return unicodedata.normalize("NFC", x)
+    if isinstance(x, (list, tuple)):
+        return type(x)(_nfc(y) for y in x)
+    return x
+
+
 _FOLDED_QUOTED = re.compile(rb'^(?:From|To|Cc|Bcc|Reply-To):(?:.*\r?\n[ \t])*.*"[^"\r\n]*\r?\n[ \t][^"]*"', re.M)
 
 
@@ -152,6 +172,9 @@ def _classify(kind, field, got, want, t, raw):
     """stable key of one failing mechanism + witness shape"""
     if kind == "eml" and field in ("from", "to", "cc", "bcc", "reply_to") and _FOLDED_QUOTED.search(raw.split(b"\n\n")[0].split(b"\r\n\r\n")[0]):
         return KNOWN_FOLDED
+    if kind == "eml" and field in ("subject", "body_plain", "body_html", "from", "to", "cc", "bcc", "reply_to") \
+            and got != want and _nfc(got) == _nfc(want) and got == _nfc(got):
+        return KNOWN_NFC        # exactly the canonical composition of what was sent (mailparser's @sanitize)
     if kind == "eml" and field in ("body_plain", "body_html") and t.get("notes", {}).get("attached_message"):
         return KNOWN_LEAK
     if kind == "mbox" and field == "attachments" and t.get("notes", {}).get("shape") == "single-attachment" \
@@ -511,6 +534,113 @@ def _corr_route(ctx, broken):
             setattr(mod, fn, orig)
 
 
+# texts whose white space must survive: interior runs, Unicode spaces, C1 controls, folds (only a fold may go)
+_WS_TEXTS = ["a  b", "a\tb", "a \t b   c", "x\u00a0y", "5\u00a0000\u00a0EUR", "\u4f1a\u8b70\u3000\u8b70\u4e8b\u9332", " \u00a0lead",
+             "trail\u3000", "\u3000both\u2003\u2003ends \u0085", "fold\n ed", "fold\r\n\ted  twice\n  x", "a \n b", "no\nfold",
+             "cr\ronly", "x\u0085y\u0093z", "\u2028sep\u2029", "\x1cfs\x1f", "q \u2009thin\u200bzw ", "\t\n", "\ufeffbom "]
+
+
+def _rand_ws_text(rng):
+    from builders.mailgen import WS_ASCII, WS_UNICODE
+    pieces = WS_ASCII + WS_UNICODE + [" ", " ", "\n ", "\r\n\t", "\n", "\r", "\x0b", "\x1c", "\u200b", "\ufeff", "a", "B", "\u00e9", "\u4e2d", "\U0001f600", "x=y", "\u0093"]
+    return "".join(rng.choice(pieces) for _ in range(rng.randint(0, 9)))
+
+
+def _corr_text(ctx, broken):
+    """str.strip / header unfolding / the Subject pipeline of the running code against S2T.MailText"""
+    M, _ = _lib()
+    from sharepoint2text.parsing.extractors.data_types import EmailAddress, EmailContent
+    rng = ctx.rng
+    reqs, impls = [], []
+    texts = list(_WS_TEXTS) + [_rand_ws_text(rng) for _ in range(ctx.n(250, 4000))]
+    for s in texts:
+        ec = EmailContent(from_email=EmailAddress(), subject=s, body_plain=s)
+        for what, got in (("subject", ec.subject), ("body_plain", ec.body_plain)):
+            reqs.append({"op": "c16.text", "fn": "strip", "s": s})
+            impls.append((f"EmailContent.{what}", s, got))
+        if hasattr(M, "_unfold_header_value"):
+            reqs.append({"op": "c16.text", "fn": "unfold", "s": s})
+            impls.append(("_unfold_header_value", s, M._unfold_header_value(s)))
+    # a literal Subject header (no encoded word): what the stdlib hands over -> parse_email_message(...).subject
+    for _ in range(ctx.n(150, 2500)):
+        words = [rng.choice(["alpha", "Re:", "x=y", "2024", "b", "(fwd)", "a_b"]) for _ in range(rng.randint(1, 7))]
+        val = words[0]
+        for w in words[1:]:
+            sep = rng.choice([" ", " ", "  ", "\t", " \t ", "   "])
+            if rng.random() < 0.3:
+                k = rng.randrange(len(sep))
+                sep = sep[:k] + "\n" + sep[k:]
+            val += sep + w
+        raw = ("Subject: " + val + "\nFrom: a@b.c\nDate: Mon, 01 Jan 2024 10:00:00 +0000\n\nx\n").encode("ascii")
+        if rng.random() < 0.3:
+            raw = raw.replace(b"\n", b"\r\n")
+        msg = email.message_from_bytes(raw)
+        try:
+            got = M.parse_email_message(msg).subject
+        except Exception as exc:
+            got = "RAISED " + repr(exc)
+        reqs.append({"op": "c16.text", "fn": "subject", "s": str(msg.get("Subject"))})
+        impls.append(("parse_email_message.subject", str(msg.get("Subject")), got))
+    outs = ctx.drive(reqs)
+    bad = 0
+    for (what, s, got), o in zip(impls, outs):
+        ctx.case(("text", what, s), nontrivial=bool(s.strip()))
+        ctx.count("text/" + what)
+        if "drv_error" in o or _txt(o["out"]) != got:
+            bad += 1
+            if bad <= 6:
+                broken.append(Broken("correspondence", "c16.text", f"{what}({s!r}) impl={got!r} model={_txt(o.get('out', []))!r} {o.get('drv_error', '')}",
+                                     case={"kind": "text", "what": what, "s": s}))
+
+
+_CODECS = ["us-ascii", "iso-8859-1", "iso-8859-15", "windows-1252", "koi8-r"]
+
+
+def _corr_decode(ctx, broken):
+    """single-byte charsets: every byte value through decode_header_value (B and Q words) and get_body_content
+    (single part / inside a multipart, plain / html) against the codec's table in the model"""
+    M, _ = _lib()
+    rng = ctx.rng
+    reqs, impls = [], []
+    for cs in _CODECS:
+        chunks = [bytes(range(i, i + 16)) for i in range(0, 256, 16)]
+        chunks += [bytes(rng.randrange(256) for _ in range(rng.randint(1, 24))) for _ in range(ctx.n(12, 200))]
+        for ch in chunks:
+            b64 = base64.b64encode(ch).decode()
+            qq = "".join("=%02X" % b for b in ch)
+            label = rng.choice([cs, cs.upper()])
+            sites = [("decode_header_value/B", lambda: M.decode_header_value(f"=?{label}?B?{b64}?=")),
+                     ("decode_header_value/Q", lambda: M.decode_header_value(f"=?{label}?q?{qq}?="))]
+            single = (f"Content-Type: text/plain; charset={label}\nContent-Transfer-Encoding: base64\n\n{b64}\n").encode()
+            multi = (f"Content-Type: multipart/alternative; boundary=B\n\n--B\nContent-Type: text/plain; charset=\"{label}\"\n"
+                     f"Content-Transfer-Encoding: base64\n\n{b64}\n--B\nContent-Type: text/html; charset={label}\n"
+                     f"Content-Transfer-Encoding: quoted-printable\n\n{qq}\n--B--\n").encode()
+            sites.append(("get_body_content/single", lambda: M.get_body_content(email.message_from_bytes(single))[0]))
+            sites.append(("get_body_content/multi-plain", lambda: M.get_body_content(email.message_from_bytes(multi))[0]))
+            sites.append(("get_body_content/multi-html", lambda: M.get_body_content(email.message_from_bytes(multi))[1]))
+            for name, f in sites:
+                want_bytes = ch
+                if name.endswith("multi-html"):
+                    # quoted-printable text: the stdlib's transfer decoding is an input (trailing line end of the part)
+                    want_bytes = email.message_from_bytes(multi).get_payload()[1].get_payload(decode=True)
+                try:
+                    got = [ord(c) for c in f()]
+                except Exception as exc:
+                    got = "RAISED " + repr(exc)
+                reqs.append({"op": "c16.decode", "codec": cs, "bytes": list(want_bytes)})
+                impls.append((cs, name, want_bytes, got))
+    outs = ctx.drive(reqs)
+    bad = 0
+    for (cs, name, ch, got), o in zip(impls, outs):
+        ctx.case(("decode", cs, name, ch))
+        ctx.count(f"decode/{cs}/{name}")
+        if o.get("out") != got:
+            bad += 1
+            if bad <= 6:
+                broken.append(Broken("correspondence", "c16.decode", f"{name} charset={cs} bytes={ch!r} impl={got!r:.300} model={o.get('out')!r:.300} {o.get('drv_error', '')}",
+                                     case={"kind": "decode", "charset": cs, "site": name, "bytes": _l1(ch)}))
+
+
 def _corr_eml_mapping(ctx, broken):
     """_read_eml_format fed with a fabricated mailparser result"""
     _, E = _lib()
@@ -546,8 +676,8 @@ def _corr_eml_mapping(ctx, broken):
                 else [(rng.choice(words), "t@x.io") for _ in range(rng.randint(0, 3))],
                 cc=[tup() for _ in range(rng.randint(0, 3))], bcc=[tup() for _ in range(rng.randint(0, 2))],
                 reply_to=[tup() for _ in range(rng.randint(0, 2))], date=None, message_id=rng.choice(["<m@x>", "", None]),
-                subject=rng.choice(["s", " padded ", "", None]), in_reply_to=None,
-                text_plain=[rng.choice(["p1", "", " p2 ", "x\ny"]) for _ in range(rng.randint(0, 3))],
+                subject=rng.choice(["s", " padded ", "", None] + _WS_TEXTS), in_reply_to=None,
+                text_plain=[rng.choice(["p1", "", " p2 ", "x\ny"] + _WS_TEXTS) for _ in range(rng.randint(0, 3))],
                 text_html=[rng.choice(["<b>h</b>", "", "<i>\n</i>"]) for _ in range(rng.randint(0, 2))], attachments=atts)
             if fake.from_ and len(fake.from_[0]) >= 2 and rng.random() < 0.8:
                 pass
@@ -582,7 +712,7 @@ def _corr_eml_mapping(ctx, broken):
         if "err" not in o and "drv_error" not in o:
             pr = lambda l: [[_txt(a), _txt(b)] for a, b in l]  # noqa: E731
             o = {"from": pr(o["from"]), "to": pr(o["to"]), "cc": pr(o["cc"]), "bcc": pr(o["bcc"]), "reply_to": pr(o["reply_to"]),
-                 "subject": _txt(o["subject"]).strip(), "plain": _txt(o["plain"]).strip(),     # EmailContent.__post_init__
+                 "subject": _txt(o["subject"]), "plain": _txt(o["plain"]),     # unfolding + __post_init__ are the model's
                  "html": _txt(o["html"]), "atts": _atts(o["atts"])}
         if o != impl:
             bad += 1
@@ -602,6 +732,11 @@ def _streams(ctx, n_msg, n_mbox):
         else:
             singles.append(mailgen.gen_message(rng))
     mboxes = []
+    # one message per charset with its complete repertoire in the body (as .eml and as a one-message mbox)
+    for cs, _ in mailgen.CHARSETS:
+        raw, t = mailgen.gen_repertoire_message(rng, cs)
+        singles.append((raw, t))
+        mboxes.append((False, b"From rep@example.com Mon Jan  1 10:00:00 2024\n" + raw + b"\n", [t]))
     for _ in range(n_mbox):
         crlf = rng.random() < 0.4
         mboxes.append((crlf,) + mailgen.gen_mbox(rng, rng.choice([0, 1, 1, 2, 3, 5]), crlf=crlf))
@@ -627,7 +762,7 @@ def correspondence(ctx):
         ctx.sample({"message": _l1(singles[0][0])[:1200], "truth": {k: v for k, v in _truth_json(singles[0][1]).items() if k != "attachments"}})
     # 1. separator matcher and splitter
     _corr_sep(ctx, broken)
-    datas = [("generated-crlf" if crlf else "generated-lf", d) for crlf, d, _ in mboxes]
+    datas = [("generated-crlf" if crlf else "generated-lf", d) for crlf, d, _ in mboxes if len(d) < 60000]
     for crlf, d, _ in mboxes[: ctx.n(150, 2000)]:
         if d:   # damage a well-formed mbox: cut, drop a byte, un-quote a From_ line, glue lines
             k = rng.randrange(4)
@@ -639,13 +774,17 @@ def correspondence(ctx):
         datas.append(("line-soup", _line_soup(rng, rng.randint(0, 9))))
     _corr_split(ctx, datas, broken)
     # 2. MIME walk: bodies + attachments of the mbox extractor on the stdlib-parsed tree
-    raws = [("generated", raw) for raw, _ in singles]
-    raws += [("mutated", _mutate_mime(rng, raw)) for raw, _ in singles[: ctx.n(400, 6000)]]
+    plain_singles = [(raw, t) for raw, t in singles if t["notes"]["shape"] != "repertoire"]
+    raws = [("generated", raw) for raw, _ in plain_singles]
+    raws += [("mutated", _mutate_mime(rng, raw)) for raw, _ in plain_singles[: ctx.n(400, 6000)]]
     _corr_trees(ctx, raws, broken)
     _corr_addr(ctx, raws[: ctx.n(120, 2000)], broken)
     # 3. attachment routing, 4. eml mapping
     _corr_route(ctx, broken)
     _corr_eml_mapping(ctx, broken)
+    # 4b. text steps: strip / unfolding / Subject pipeline, single-byte codecs over all 256 byte values
+    _corr_text(ctx, broken)
+    _corr_decode(ctx, broken)
     # 5. ground truth (the property statement itself) on both extractors
     seen = set()
     _truth_pass(ctx, singles, mboxes, violations, seen)
@@ -666,7 +805,14 @@ def _witnesses():
     t_leak = dict(base, plain="outer text", attachments=[("fwd.eml", "message/rfc822", inner)], notes={"shape": "witness", "attached_message": True})
     single = hdr + b"MIME-Version: 1.0\nContent-Type: text/csv\nContent-Disposition: attachment; filename=\"d.csv\"\n\na,b\n"
     t_single = dict(base, plain="", attachments=[("d.csv", "text/csv", b"a,b\n")], notes={"shape": "single-attachment"})
+    # text that is not in normalisation form C: compatibility ideograph, angstrom sign, decomposed e-acute
+    odd = "\uf966 \u212b e\u0301"
+    nfc = ("From: a@b.c\nTo: x@y.z\nSubject: =?utf-8?B?%s?=\nDate: Mon, 01 Jan 2024 10:00:00 +0000\nMessage-ID: <m@x>\n"
+           "Content-Type: text/plain; charset=utf-8\nContent-Transfer-Encoding: 8bit\n\n" % base64.b64encode(odd.encode()).decode()
+           ).encode() + odd.encode() + b"\n"
+    t_nfc = dict(base, subject=odd, plain=odd, attachments=[])
     return [
+        (KNOWN_NFC, "eml", nfc, t_nfc),
         (KNOWN_FOLDED, "eml", folded, t_folded),
         (KNOWN_FOLDED, "eml", folded.replace(b"\n", b"\r\n"), t_folded),
         (KNOWN_LEAK, "eml", leak, t_leak),
@@ -688,7 +834,7 @@ def known_witnesses(ctx):
         _violations(found, rep, out, seen)
     # the mbox side of two of them is fixed in the library: the same inputs must hold there
     for key, kind, data, t in _witnesses():
-        if kind == "eml" and key in (KNOWN_FOLDED, KNOWN_LEAK):
+        if kind == "eml" and key in (KNOWN_FOLDED, KNOWN_LEAK, KNOWN_NFC):
             mb = b"From a@b.c Mon Jan  1 10:00:00 2024\n" + data + b"\n"
             t2 = dict(t)
             for k2, what in oracle_mbox(mb, [t2]):
